@@ -28,7 +28,8 @@ RULE = ("random bounds configurations (any subset of the seven properties, rando
         "re-configured mid-history) followed by 40-60 commands that carry a bounded quantity, values "
         "drawn from {min, max, nextafter(min,-inf), nextafter(max,+inf), inside, far outside, NaN, "
         "+-inf, -0.0}; moves/rapids/bypass/probes in both distance modes with partially known "
-        "positions, tracer shapes bulging out of the box; distinct = (bounded property, value class, "
+        "positions, tracer shapes bulging out of the box; every fourth history with a move hook that rewrites F/S of linear moves "
+        "with boundary-class values; distinct = (bounded property, value class, "
         "operation, outcome)")
 ASSUMPTIONS = [
     "motion targets are evaluated in the builder's own coordinates (position reported before the call, unknown axes = 0)",
@@ -42,7 +43,7 @@ TIERS = {
 FLOORS = {
     "quick": {"counts": {"words_checked": 4000, "motion_targets_checked": 15000,
                          "boundary_value_calls": 4000, "validate_contract_evals": 50000,
-                         "rejected_out_of_bounds": 4000}, "keys": 150},
+                         "rejected_out_of_bounds": 4000, "hook_rewrote_word": 300}, "keys": 150},
     "thorough": {"counts": {"words_checked": 600000, "motion_targets_checked": 600000}, "keys": 200},
 }
 NAN, INF = float("nan"), float("inf")
@@ -125,6 +126,22 @@ def run_case(ctx, col, case):
     if rng.random() < 0.4:
         g.set_distance_mode("relative")
     s.drain()
+
+    # every fourth history registers a move hook that rewrites the F or S word of some linear moves with a
+    # boundary-class value: what a hook returns is what gets emitted, so it must pass the same bounds
+    hooked = {"fired": False}
+    if case % 4 == 3:
+        hrng = ctx.rng(case, "hook")
+
+        def rewriting_hook(origin, target, params, state):
+            if hrng.random() < 0.5:
+                word, prop, default = hrng.choice([("F", "feed-rate", (0, 6000)), ("S", "tool-power", (0, 24000))])
+                lo, hi = bounds.get(prop, default)
+                params[word] = value_class(hrng, lo, hi)[0]
+                hooked["fired"] = True
+                col.count("hook_rewrote_word")
+            return params
+        g.add_hook(rewriting_hook)
 
     def fail(kind, mech=None, **detail):
         col.violation(kind, ctx.case_ref(case),
@@ -209,6 +226,7 @@ def run_case(ctx, col, case):
         start_rel = g.distance_mode.is_relative
         name, args, kw, prop, cls, expect_inside, motion = draw_call(rng, g, bounds, start_pos, start_rel)
         n_evals = contracts.EVALS["bounds.validate"]
+        hooked["fired"] = False
         try:
             with ctx.watchdog(20):
                 outcome, exc, new, _ = s.call(name, *args, **kw)
@@ -229,6 +247,8 @@ def run_case(ctx, col, case):
         if cls in ("min", "max"):
             col.count("boundary_value_calls")
         # (b) predictor -----------------------------------------------------
+        if hooked["fired"]:
+            expect_inside = None    # the hook changed the request: only the wire monitor judges this call
         if expect_inside is True and isinstance(exc, ValueError):
             fail("in-bounds-call-rejected", call=_jc(name, args, kw), value_class=cls, error=repr(exc),
                  position=start_pos, relative=start_rel, mech=f"c03:{prop}:{cls}:rejected")
